@@ -28,7 +28,14 @@ def scenarios(seed, tier):
     n = 220 if tier == 'quick' else 2500
     rnd = random.Random(seed * 7919 + 2)
     for i in range(n):
-        yield 'tb%d' % i, {'stream': 'textbook', 'case': TB.gen_case(random.Random(rnd.getrandbits(48)))}
+        r1 = random.Random(rnd.getrandbits(48))
+        c = TB.gen_case(r1)
+        item = {'stream': 'textbook', 'case': c}
+        if i % 5 == 4:
+            item['group'] = _grouping(c, r1)
+        elif i % 5 == 2:
+            item['group'] = _scaling(c, r1)
+        yield 'tb%d' % i, item
     for i in range(n // 3):
         yield 'ct%d' % i, {'stream': 'contract', 'case': CT.gen_case(random.Random(rnd.getrandbits(48)))}
     for i in range(n // 3):
@@ -39,8 +46,93 @@ def scenarios(seed, tier):
         yield 'st%d' % i, {'stream': 'storage', 'case': c}
 
 
+def _grouping(scn, rnd):
+    """the same portfolio with some of its non-market assets wrapped into a structured asset that has its own window W:
+    returns (wrapped scenario, flat scenario with every wrapped asset's window intersected with W) or None"""
+    import copy
+    import pandas as pd
+    from .. import gen
+    cand = [k for k, a in enumerate(scn['assets']) if not a['name'].startswith('mkt') and a['type'] in ('SimpleContract', 'Contract', 'Transport', 'Storage', 'MultiCommodityContract', 'ExtendedTransport')]
+    if not cand:
+        return None
+    pick = sorted(rnd.sample(cand, min(len(cand), rnd.choice([1, 2, 2]))))
+    w = gen.window(rnd, scn['grid'], kinds=['inside', 'start_only', 'end_only', 'straddle_end', 'straddle_start'])
+    wargs = {}
+    gen.put_window(wargs, w)
+    if not wargs:
+        return None
+    flat = copy.deepcopy(scn)
+    for k in pick:
+        a = flat['assets'][k]['args']
+        if 'start' in wargs:
+            if 'start' not in a or pd.Timestamp(a['start']['$dt']) < pd.Timestamp(wargs['start']['$dt']):
+                a['start'] = copy.deepcopy(wargs['start'])
+        if 'end' in wargs:
+            if 'end' not in a or pd.Timestamp(a['end']['$dt']) > pd.Timestamp(wargs['end']['$dt']):
+                a['end'] = copy.deepcopy(wargs['end'])
+    wrapped = copy.deepcopy(scn)
+    inner = [wrapped['assets'][k] for k in pick]
+    ext = sorted(set(nd for a in inner for nd in a['nodes']))
+    sa = {'type': 'StructuredAsset', 'name': 'grp', 'nodes': ext, 'inner': inner, 'args': wargs}
+    wrapped['assets'] = [a for k, a in enumerate(wrapped['assets']) if k not in pick]
+    wrapped['assets'].insert(min(pick[0], len(wrapped['assets'])), sa)
+    return {'wrapped': wrapped, 'flat': flat, 'n_inner': len(pick)}
+
+
+def _scaling(scn, rnd):
+    """the same portfolio with one non-market asset wrapped into a scaled asset held at a fixed scale s (normalisation N, no
+    fixed costs) vs the flat portfolio with that asset's capacities multiplied by s/N"""
+    import copy
+    from ..comp import scaled as SC
+    cand = [k for k, a in enumerate(scn['assets']) if not a['name'].startswith('mkt') and a['type'] in SC.CAP_ARGS and a['type'] != 'Plant']
+    if not cand:
+        return None
+    k = rnd.choice(cand)
+    sc, nrm = rnd.choice([0.5, 1.0, 1.5, 2.0]), rnd.choice([0.5, 2.0, 4.0, 1.0])
+    flat = copy.deepcopy(scn)
+    newp = {}
+    b = SC.scaled_spec(flat['assets'][k], sc / nrm, flat['prices'], newp)
+    if b is None:
+        return None
+    flat['assets'][k] = b
+    flat['prices'].update(newp)
+    wrapped = copy.deepcopy(scn)
+    base = wrapped['assets'][k]
+    wrapped['assets'][k] = {'type': 'ScaledAsset', 'name': base['name'], 'base': dict(base, name=base['name'] + '_b'),
+                            'args': {'min_scale': sc, 'max_scale': sc, 'norm_scale': nrm, 'fix_costs': 0.0}}
+    if 'wacc' in base.get('args', {}):
+        wrapped['assets'][k]['args']['wacc'] = base['args']['wacc']
+    return {'wrapped': wrapped, 'flat': flat, 'n_inner': 1, 'how': 'scaled'}
+
+
 def run_case(c, drv):
-    if c['stream'] == 'textbook':
+    if c['stream'] == 'textbook' and c.get('group'):
+        # the structure with window W around some assets = the flat portfolio with those assets' windows cut to W: the textbook
+        # reference of the FLAT portfolio (checked as usual) is also the reference of the wrapped one
+        from .. import pf, impl
+        g = c['group']
+        r = TB.run_case(g['flat'], drv)
+        r.setdefault('features', []).append(('wrapped-in-scaled-asset' if g.get('how') == 'scaled' else 'grouped-in-structure:%d' % g['n_inner']))
+        v_ref = r.get('observed', {}).get('textbook_value_plus_constant')
+        if v_ref is not None:
+            try:
+                rw = pf.setup_mono(g['wrapped'])
+                pf.solve_rec(rw)
+                if isinstance(rw['res'], str):
+                    for s_ in ('SCIPY', 'CLARABEL'):
+                        pf.solve_rec(rw, solver=s_)
+                        if not isinstance(rw['res'], str):
+                            break
+                r['evaluated'] = r.get('evaluated', 1) + 1
+                if isinstance(rw['res'], str):
+                    r['violations'].append({'oracle': 'textbook', 'detail': 'assets wrapped into a structured asset with its own window: eaopack reports "%s", the textbook model of the flat portfolio with the windows cut has the optimum %.9g' % (rw['res'], v_ref),
+                                            'facts': {'what': 'value', 'wrapped': True}})
+                elif abs(float(rw['res'].value) - v_ref) > 2e-6 * max(1.0, abs(v_ref), abs(float(rw['res'].value))):
+                    r['violations'].append({'oracle': 'textbook', 'detail': '%s: optimum of eaopack %.10g vs textbook model of the equivalent flat portfolio %.10g' % ('an asset wrapped into a scaled asset at a fixed scale' if g.get('how') == 'scaled' else 'assets wrapped into a structured asset with its own window', float(rw['res'].value), v_ref),
+                                            'facts': {'what': 'value', 'wrapped': True, 'diff': float(rw['res'].value) - v_ref}})
+            except Exception as e:
+                r['violations'].append({'oracle': 'textbook', 'detail': 'assets wrapped into a structured asset with its own window: %s: %s' % (type(e).__name__, str(e)[:150]), 'facts': {'what': 'value', 'wrapped': True, 'error': impl.err_class(e)}})
+    elif c['stream'] == 'textbook':
         r = TB.run_case(c['case'], drv)
     elif c['stream'] == 'contract':
         rec = CT.run_case(c['case'], drv)
